@@ -2,7 +2,7 @@
    iancoleman/strcase ToSnake (lib/Strcase.v, builder "ent"): which property names are inside the law. *)
 From Coq Require Import String List Arith NArith Bool Lia ZifyN ZifyNat ZifyBool.
 From J5V.lib Require Import Outcome Corr Strcase.
-From J5V.model Require Import Pipeline.
+From J5V.model Require Import Pipeline PipelineCompile.
 From J5V.proofs Require Import StrcaseProofs PipelineProofs.
 Import ListNotations.
 Local Open Scope N_scope.
